@@ -119,6 +119,56 @@ theorem create_delta_total_partial (a b : RawSnap) (hag : SizesAgree a b) : crea
   intro h
   exact ((createDelta_eq_none_iff a b).mp h) hag
 
+/-- `Snap::recycle`'s numbering loop cannot overflow (since the fix of D20): the counter stays
+`≤ 0x8000`, so `next_type_id + 256` fits a `u16`. -/
+theorem recycle_numbering_total : ∀ (m : Items) (n : Nat), n ≤ 32768 →
+    ∃ n', recycleNext m n = some n' ∧ n' ≤ 32768 ∧ (offsetExt ≤ n → offsetExt ≤ n') := by
+  intro m
+  induction m with
+  | nil => intro n h; exact ⟨n, rfl, h, id⟩
+  | cons q r ih =>
+    obtain ⟨k, d⟩ := q
+    intro n h
+    simp only [recycleNext]
+    split
+    · exact ⟨n, rfl, h, id⟩
+    · split
+      · rename_i hr
+        have h1 : ¬ n + 256 ≥ 65536 := by omega
+        simp only [h1, if_false]
+        split
+        · obtain ⟨n', e1, e2, e3⟩ := ih (keyId k + 1) (by omega)
+          exact ⟨n', e1, e2, fun _ => e3 (by omega)⟩
+        · exact ih n h
+      · exact ih n h
+
+/-- … and a builder whose counter is in `OFFSET_EXTENDED_TYPE_ID ..= 0x8000` never trips an
+assertion of `add_item` for a UUID type (when the ids are used up it returns `TooManyItems`). -/
+theorem add_uuid_item_total (b : Builder) (h : offsetExt ≤ b.nextTypeId) (u : Int) (id : Nat) (data : List Int) :
+    b.addItem (.uuid u) id data ≠ none := by
+  simp only [Builder.addItem]
+  cases mfind u b.snap.ext with
+  | some t =>
+    simp only
+    cases b.snap.raw.addItem (keyOf t id) data <;> simp
+  | none =>
+    simp only [h, not_true_eq_false, if_false]
+    split
+    · simp
+    · cases b.snap.raw.addItem (keyOf typeIdEx b.nextTypeId) (uuidToData u) with
+      | error e => simp
+      | ok raw1 =>
+        simp only
+        cases raw1.addItem (keyOf b.nextTypeId id) data <;> simp
+
+/-- Not proved as theorems (checked by the correspondence run and the `C11/followup-panic` oracle on
+every accepted parse only): `items()` and the re-insertion loop of `recycle` never panic on an
+accepted snapshot, and the reader's allocations are bounded by the input length. -/
+def C11_followups_full : Prop :=
+  ∀ (data : List Int) (s : Snap) (ws : List Warning), (∀ x ∈ data, I32 x) →
+    Snap.readFromInts data = .ok (s, ws) →
+    s.items ≠ none ∧ s.recycle ≠ none ∧ s.raw.items.length + dataLen s.raw.items + 2 ≤ data.length
+
 /-- The former panic witness of D19 (nine-integer delta with an explicit size 3 for an item stored
 with size 2) is an error now. -/
 theorem delta_size_mismatch_is_error :
